@@ -18,3 +18,9 @@ package api
 //@   iface (self NodeDB, root node.Root, ptr *node.Pointer) (result node.Node, err error)
 //@   ensures err == nil ==> result != nil
 //@   note assumption about every node database: a successful lookup returns a node (both back ends return ErrNodeNotFound or a decoding error otherwise); the lookup may change anything else (no frame)
+
+//@ func TypedHash.UnmarshalBinary
+//@   props C16 C06
+//@   safety bounds nil
+//@   ensures (err == nil) == (len(data) == TypedHashSize)
+//@   note a typed hash (root type byte + hash) decodes from exactly 33 bytes
